@@ -120,7 +120,9 @@ def apply_global_rewrites(text, keep_panics=False, keep_minmax=False):
         bump('R8 size_of constant', n); text = new
     # R11 integer max/min on simple receivers
     for op in (() if keep_minmax else ('max', 'min')):
-        new, n = re.subn(r'((?:\b[\w]+(?:\.[\w]+)*)|\((?:[^()]|\([^()]*\))*\))\.' + op + r'\(', r'v' + op + r'(\1, ', text)
+        args = r'\((?:[^()]|\([^()]*\))*\)'
+        # receiver: a path whose segments may be method calls (`a.b`, `data.len()`, `self.x.get(i)`), or a parenthesised expression
+        new, n = re.subn(r'((?<![\w.])[\w]+(?:' + args + r')?(?:\.[\w]+(?:' + args + r')?)*|(?<![\w)])' + args + r')\.' + op + r'\((?!\))', r'v' + op + r'(\1, ', text)
         bump(f'R11 a.{op}(b) -> v{op}(a, b)', n); text = new
     # R13 closure parameter `_` (rejected by Verus) gets a name
     new, n = re.subn(r'\|\s*_\s*\|', '|_e|', text); bump('R13 closure |_| -> |_e|', n); text = new
